@@ -168,12 +168,52 @@ NSweep == 64
 SweepRecs == [what : {"lists"}, sweep : 1..NSweep, nsweep : {NSweep}, ns : {0}, nl : {0}, dflt : {1}, nopt : {2},
               req : {65535}, nf : {1}, nlk : {2}, mayRefuse : {FALSE}]
 
+---------------------------------------------------------------------------
+(* Mode "leaf": value sweeps on every scalar leaf of the subtable formats.  *)
+(* One small subtable per case (three records, followed by more data); the   *)
+(* named leaf of the middle record takes each of the values below, with the  *)
+(* OTHER leaves non-zero (oth = 1) or all zero (oth = 0: "only this field    *)
+(* is set").  Any shortcut "this record is empty / has format 0" that tests  *)
+(* the wrong conjunction of fields changes the decoded value.  Leaves from   *)
+(* the OpenType layouts: int16 coordinates and value-record adjustments,     *)
+(* uint16 glyph ids, class values, sequence / lookup indices, device-table   *)
+(* offsets (kept as raw words by the library), mark classes (0 .. classCount *)
+(* - 1), the lookup flag and mark filtering set words of the Lookup table.   *)
+S16 == {0, 1, -1, -32768, 32767}
+U16 == {0, 1, 65535}
+VRS == {"XPlacement", "YPlacement", "XAdvance", "YAdvance"}
+VRU == {"XPlaDevice", "YPlaDevice", "XAdvDevice", "YAdvDevice"}
+Pre(pre, names) == {pre \o n : n \in names}
+L(t, names, vals) == [t : {t}, field : names, val : vals]
+LeafTable ==
+       L("gsub1_1", {"deltaGlyphID"}, U16) \cup L("gsub1_2", {"substituteGlyphID"}, U16)
+  \cup L("gsub2_1", {"sequenceGlyph"}, U16) \cup L("gsub3_1", {"alternateGlyph"}, U16)
+  \cup L("gsub4_1", {"ligatureGlyph", "componentGlyph"}, U16) \cup L("gsub8_1", {"substituteGlyphID"}, U16)
+  \cup L("ctx1", {"inputGlyph", "sequenceIndex", "lookupListIndex"}, U16)
+  \cup L("ctx2", {"inputClass", "sequenceIndex", "lookupListIndex"}, U16)
+  \cup L("ctx3", {"sequenceIndex", "lookupListIndex"}, U16)
+  \cup L("chain1", {"backtrackGlyph", "inputGlyph", "lookaheadGlyph", "sequenceIndex", "lookupListIndex"}, U16)
+  \cup L("chain2", {"backtrackClass", "inputClass", "lookaheadClass", "sequenceIndex", "lookupListIndex"}, U16)
+  \cup L("chain3", {"sequenceIndex", "lookupListIndex"}, U16)
+  \cup L("gpos1_1", VRS, S16) \cup L("gpos1_1", VRU, U16) \cup L("gpos1_2", VRS, S16) \cup L("gpos1_2", VRU, U16)
+  \cup L("gpos2_1", {"secondGlyph"}, U16)
+  \cup L("gpos2_1", Pre("v1.", VRS) \cup Pre("v2.", VRS), S16) \cup L("gpos2_1", Pre("v1.", VRU) \cup Pre("v2.", VRU), U16)
+  \cup L("gpos2_2", Pre("v1.", VRS) \cup Pre("v2.", VRS), S16) \cup L("gpos2_2", Pre("v1.", VRU) \cup Pre("v2.", VRU), U16)
+  \cup L("gpos3_1", {"entryX", "entryY", "exitX", "exitY"}, S16)
+  \cup L("gpos4_1", {"markX", "markY", "baseX", "baseY"}, S16) \cup L("gpos4_1", {"markClass"}, {0, 1})
+  \cup L("gpos6_1", {"markX", "markY", "baseX", "baseY"}, S16) \cup L("gpos6_1", {"markClass"}, {0, 1})
+  \cup L("gsub1_1", {"lookupFlag"}, {0, 1, 65519}) \cup L("gpos1_1", {"lookupFlag"}, {0, 1, 65519})
+  \cup L("gsub1_1", {"markFilteringSet"}, U16) \cup L("gpos1_1", {"markFilteringSet"}, U16)
+LeafRecs == { [what |-> "shape", k |-> "leaf", t |-> r.t, field |-> r.field, val |-> r.val, oth |-> o,
+               n |-> 0, m |-> 0, c |-> 0, v |-> 0, f |-> 0, mayRefuse |-> FALSE] : r \in LeafTable, o \in {0, 1} }
+
 Recs == CASE Mode = "shape" -> ShapeRecs
           [] Mode = "huge"  -> HugeRecs
           [] Mode = "gdef"  -> GdefRecs
           [] Mode = "lists" -> ListRecs
           [] Mode = "off"   -> OffCases \cup FieldRecs
-          [] Mode = "all"   -> ShapeRecs \cup BoundaryRecs \cup HugeRecs \cup OffCases \cup FieldRecs \cup GdefRecs
+          [] Mode = "leaf"  -> LeafRecs
+          [] Mode = "all"   -> ShapeRecs \cup LeafRecs \cup BoundaryRecs \cup HugeRecs \cup OffCases \cup FieldRecs \cup GdefRecs
                                \cup ListRecs \cup SweepRecs \cup GeomRecs
 
 Init == rec \in Recs
